@@ -14,13 +14,15 @@ type Flavor struct {
 
 // Flavors lists the known build flavors.
 var Flavors = map[string]Flavor{
-	"std":   {Name: "std", Tags: "verif"},
-	"tiny":  {Name: "tiny", Tags: "verif,tiny"},
-	"dbg":   {Name: "dbg", Tags: "verif,debug"},
-	"ptr":   {Name: "ptr", Tags: "verif", Flags: []string{"-gcflags=all=-d=checkptr"}},
-	"asan":  {Name: "asan", Tags: "verif", Flags: []string{"-asan"}},
-	"race":  {Name: "race", Tags: "verif", Flags: []string{"-race"}},
-	"go126": {Name: "go126", Tags: "verif", GoTool: "go1.26.8"},
+	"std":  {Name: "std", Tags: "verif"},
+	"tiny": {Name: "tiny", Tags: "verif,tiny"},
+	"dbg":  {Name: "dbg", Tags: "verif,debug"},
+	"ptr":  {Name: "ptr", Tags: "verif", Flags: []string{"-gcflags=all=-d=checkptr"}},
+	"asan": {Name: "asan", Tags: "verif", Flags: []string{"-asan"}},
+	"race": {Name: "race", Tags: "verif", Flags: []string{"-race"}},
+	// the race detector on the 64-bit-mask build (build-tag specific files are different code)
+	"racetiny": {Name: "racetiny", Tags: "verif,tiny", Flags: []string{"-race"}},
+	"go126":    {Name: "go126", Tags: "verif", GoTool: "go1.26.8"},
 }
 
 // Part is a share of a check: a number of cases on a flavor, optionally in a named mode.
